@@ -52,6 +52,10 @@ CLAIMED["C09"] = ("model_checking", "5 C09",
     "Each container/decoration class is executed around an abstract leaf implementing the cursor protocol, for unbounded symbolic sizes, options and event cells under the "
     "fit precondition; the solver shows reported cursor == rendered cursor, mouse events on the leaf's cells reach it with translated coordinates, and cursor moves translate likewise.",
     "z3 trusted; abstract cursor leaf (contract: cursor inside its own area); the leaf's position is read off the rendered cursor.")
+CLAIMED["C08"] = ("model_checking", "5 C08",
+    "Inductive step on the real container classes with abstract children whose selectability is symbolic: focus assignment for any integer, every navigation key, contents edits at "
+    "symbolic indices, set_focus_path and focused rendering; focus validity, focus-path confinement of keypresses and the selectable-iff-a-child-is rule are discharged per path.",
+    "z3 trusted; <= 3 children, 2 levels, child heights <= 2 rows.")
 NOT_YET = {}
 TECH = "bounded symbolic execution of the real urwid code (AST-lifted import of /repo) with z3 deciding every path obligation; counterexamples replayed on the un-lifted code"
 def main():
